@@ -79,7 +79,7 @@ def check_history(case, ctx):
             for k, desc in enumerate(st_["dirs"]):
                 if desc is None:
                     continue
-                pick = pick_insert(degs[k], kvs[k], szs[k], desc)
+                pick = pick_insert(degs[k], kvs[k], szs[k], desc, others=[o for j, o in enumerate(kvs) if j != k])
                 if pick is None:
                     continue
                 u, s, r = pick
@@ -120,10 +120,8 @@ def check_history(case, ctx):
                 ctx.check(nkvs[k] == kvs[k] and nszs[k] == szs[k], "other-direction-changed",
                           "removal %r x%r changed direction %d" % (params, nums, k))
                 continue
-            want = list(kvs[k])
-            for _ in range(nums[k]):
-                want.remove(params[k])
-            ctx.check(nkvs[k] == want, "knot-vector",
+            want = shape.kv_minus(kvs[k], params[k], nums[k])
+            ctx.check(want is not None and shape.kv_close(nkvs[k], want), "knot-vector",
                       "after removing %r x%d (dir %d) the knot vector is %r, expected %r" % (params[k], nums[k], k, nkvs[k], want))
             ctx.check(nszs[k] == szs[k] - nums[k], "net-size",
                       "after removing %r x%d (dir %d) the size is %d, expected %d" % (params[k], nums[k], k, nszs[k], szs[k] - nums[k]))
@@ -137,7 +135,7 @@ def check_history(case, ctx):
         shape.same_shape(ctx, R, obj, lat, "shape-changed", "after removing %r x%r via %s (removal #%d)" % (params, nums, st_["form"], nrem))
         if all(e[2] == 0 for e in ledger):
             full_restore = True
-            ctx.check(build.kvs_of(obj) == orig["kv"], "knot-vector-not-restored", "all inserted knots removed but knot vectors are %r, originally %r" % (build.kvs_of(obj), orig["kv"]))
+            ctx.check(all(shape.kv_close(x, y) for x, y in zip(build.kvs_of(obj), orig["kv"])), "knot-vector-not-restored", "all inserted knots removed but knot vectors are %r, originally %r" % (build.kvs_of(obj), orig["kv"]))
             _orig_points_close(ctx, obj, orig["pts"], "control-points-not-restored", "insert then remove everything")
     ctx.nt(removed_any and r2, "removal-count>=2")
     ctx.nt(removed_any and onknot, "inserted-on-existing-knot")
@@ -189,14 +187,12 @@ def check_refine_remove(case, ctx):
         params[k], nums[k] = u, c
         before = build.kvs_of(obj)[k]
         operations.remove_knot(obj, params, nums)
-        want = list(before)
-        for _ in range(c):
-            want.remove(u)
-        ctx.check(build.kvs_of(obj)[k] == want, "knot-vector", "after removing %r x%d the knot vector is %r, expected %r" % (u, c, build.kvs_of(obj)[k], want))
+        want = shape.kv_minus(before, u, c)
+        ctx.check(want is not None and shape.kv_close(build.kvs_of(obj)[k], want), "knot-vector", "after removing %r x%d the knot vector is %r, expected %r" % (u, c, build.kvs_of(obj)[k], want))
         lat = shape.obj_lattice(obj)
         shape.same_shape(ctx, R, obj, lat, "shape-changed", "refine then remove %r x%d (dir %d)" % (u, c, k))
     if case["all"]:
-        ctx.check(build.kvs_of(obj) == orig["kv"], "knot-vector-not-restored", "refinement fully removed but knot vectors differ")
+        ctx.check(all(shape.kv_close(x, y) for x, y in zip(build.kvs_of(obj), orig["kv"])), "knot-vector-not-restored", "refinement fully removed but knot vectors differ")
         _orig_points_close(ctx, obj, orig["pts"], "control-points-not-restored", "refine then remove everything")
 
 
